@@ -2,7 +2,7 @@
 import ast
 
 from ..model import AnchorError, call_name, const_str, dotted, src, walk_no_nested
-from ..rules import FuncView, suffix_match, defect_scope
+from ..rules import FuncView, suffix_match, defect_scope, path_condition, formula_equiv
 from .. import defects
 
 EXPLANATION = (
@@ -82,6 +82,26 @@ def check(ctx):
             ok = ok and any(isinstance(n.ast, ast.Assign) and dotted(n.ast.targets[0]) == "self._keys" for n in V.cfg.nodes)
         ctx.check(ok, "T2-keys-step", f, "odict.%s updates dict storage (%s) and the key order list" % (name, dop),
                   "dict contents and key order would disagree after %s" % name)
+    # pop: whether the key leaves the order list is decided by the key's presence alone, never by the value that came back
+    pf = O.own_method("pop")
+    P = FuncView(ctx, pf)
+    rm = P.call_nodes("self._keys.remove")
+    dp = P.calls("dict.pop")
+    okp = bool(rm) and len(dp) == 1
+    if okp:
+        pc = ("or", [path_condition(P, n, start=[P.cfg.entry.id]) for n in rm])
+        if formula_equiv(pc, "key in self._keys"):
+            okp = True
+        elif formula_equiv(pc, "key in self") or formula_equiv(pc, "dict.__contains__(self, key)"):
+            tests = [t for t in P.cfg.nodes if t.kind == "test"]
+            okp = all(dp[0][0].id in P.cfg.reachable(t.id) and t.id not in P.cfg.reachable(dp[0][0].id) for t in tests)   # membership read before the pop
+        elif formula_equiv(pc, "True"):
+            okp = len(dp[0][1].args) == 2 and not dp[0][1].keywords         # dict.pop(self, key) raises for an absent key
+        else:
+            okp = False
+    ctx.check(okp, "T2-keys-step", pf, "odict.pop removes the key from _keys exactly when the key was present",
+              "a condition on the popped value (e.g. `value is default`) cannot tell an absent key from a present key whose value "
+              "happens to be the default object: the entry leaves the dict but stays in _keys, and items()/values()/popitem raise KeyError")
     si = O.own_method("__setitem__")
     S = FuncView(ctx, si)
     t = S.tests(lambda t: src(t) in ("key not in self", "key not in self._keys"))
